@@ -80,3 +80,33 @@ Proof.
   unfold slice. rewrite (splice_skipn_head _ _ _ _ _ Hs), Hs.
   destruct len as [|len']; [lia|]. simpl. intro E. inversion E as [E1]. exact (flip_neq x E1).
 Qed.
+
+(* ---- caller-supplied slices ---- *)
+Lemma kept_stable : forall c i h, kobserve (crun c h) (keep_current c i) = nth i c [].
+Proof. reflexivity. Qed.
+
+Lemma nth_set_nth : forall c i x, i < length c -> nth i (set_nth i x c) [] = x.
+Proof.
+  induction c as [|y c IH]; intros i x Hi; cbn [length] in Hi; [lia|].
+  destruct i as [|i]; cbn [set_nth nth]; [reflexivity|]. apply IH. lia.
+Qed.
+
+(* a retained slice is refuted by ONE later write of the caller into its own buffer *)
+Lemma ref_changed_by_caller : forall c i, i < length c -> nth i c [] <> [] ->
+  exists o, kobserve (cstep c o) (keep_ref c i) <> kobserve c (keep_ref c i).
+Proof.
+  intros c i Hi Hne. destruct (nth i c []) as [|x xs] eqn:E; [congruence|].
+  exists (CWrite i 0 [N.succ x]). cbn [cstep keep_ref kobserve]. rewrite nth_set_nth by exact Hi.
+  rewrite E. unfold splice. cbn [firstn app length Nat.add skipn]. intro H. inversion H as [H1].
+  apply N.neq_succ_diag_l in H1. exact H1.
+Qed.
+
+(* operations of the collection leave the caller's buffers as they are, and writes of the caller into its own
+   buffers leave the mapping (and so every stored document) as it is — for every interleaving of the two *)
+Lemma joint_independent : forall h m c,
+  snd (joint_run (m, c) h) = crun c (flat_map (fun o => match o with inr co => [co] | inl _ => [] end) h)
+  /\ fst (joint_run (m, c) h) = mrun m (flat_map (fun o => match o with inl mo => [mo] | inr _ => [] end) h).
+Proof.
+  unfold joint_run, crun, mrun. induction h as [|o h IH]; intros m c; [split; reflexivity|].
+  destruct o as [mo|co]; cbn [fold_left flat_map joint_step fst snd app]; apply IH.
+Qed.
